@@ -122,9 +122,19 @@ VERIF_MSGS = [
 RESOURCE_MSGS = ('Resource limit (rlimit) exceeded', 'rlimit', 'timed out', 'timeout')
 
 
+THOROUGH_VARIANTS = [
+    ('seed=7', ['--smt-option', 'smt.random_seed=7']),
+    ('seed=23', ['--smt-option', 'smt.random_seed=23']),
+    ('rlimit=20,seed=101', ['--rlimit', '20', '--smt-option', 'smt.random_seed=101']),
+]
+
+
 class UnitRun(object):
     def __init__(self, name):
         self.name = name
+        self.variants = []
+        self.unstable = []
+        self.extra_smt_ms = 0
         self.unit = None
         self.failures = []     # dict(id, props, kind, message, rendered, repo, fn)
         self.obligations = []  # dict(id, props, kind)
@@ -297,11 +307,49 @@ def run_unit(name, tier, want_probe=True):
         punit, pdata = build_probe(name)
         pex = ThreadPoolExecutor(max_workers=1)
         pfut = pex.submit(run_verus, pdata, name + '_probe')
-    res = run_verus(data, name)
+    vfuts = []
+    vex = None
+    if tier == 'thorough':
+        # independent re-proofs: other SMT seeds and a doubled resource limit, never from the cache
+        vex = ThreadPoolExecutor(max_workers=len(THOROUGH_VARIANTS))
+        for vname, vflags in THOROUGH_VARIANTS:
+            vfuts.append((vname, vex.submit(run_verus, data, name, vflags, False)))
+    res = run_verus(data, name, (), tier != 'thorough')
     run.verus = res
     classify(unit, data, res['diags'], run)
     if res['rc'] != 0 and not res['diags']:
         run.frontend_errors.append('verus failed without diagnostics: ' + res.get('stderr_tail', ''))
+    if vfuts:
+        # a proof found under any seed is a proof: an obligation fails only if it fails in every variant
+        run.variants = [{'variant': 'default', 'failed': sorted(set(f['id'] for f in run.failures)), 'resource': list(run.resource_errors),
+                         'smt_ms': res['summary'].get('smt_ms'), 'wall_s': round(res['wall_s'], 2)}]
+        clean = []   # per variant: (set of fns with a failure, hit a resource limit?)
+        clean.append((set(f['fn'] for f in run.failures), bool(run.resource_errors)))
+        all_res = bool(run.resource_errors)
+        extra_ms = 0
+        for vname, fut in vfuts:
+            vres = fut.result()
+            vrun = UnitRun(name)
+            classify(unit, data, vres['diags'], vrun)
+            ids = set(f['id'] for f in vrun.failures)
+            run.variants.append({'variant': vname, 'failed': sorted(ids), 'resource': list(vrun.resource_errors),
+                                 'smt_ms': vres['summary'].get('smt_ms'), 'wall_s': round(vres['wall_s'], 2)})
+            extra_ms += vres['summary'].get('smt_ms') or 0
+            if vrun.frontend_errors:
+                run.frontend_errors.extend(vrun.frontend_errors)
+            clean.append((set(f['fn'] for f in vrun.failures), bool(vrun.resource_errors)))
+            all_res = all_res and bool(vrun.resource_errors)
+            have = set(f['id'] for f in run.failures)
+            run.failures.extend(f for f in vrun.failures if f['id'] not in have)
+        vex.shutdown()
+        # a failure is kept unless some variant verified the whole function without hitting a resource limit
+        def proved_somewhere(f):
+            return any((f['fn'] not in fns) and not resd for fns, resd in clean)
+        run.unstable = sorted(set(f['id'] for f in run.failures if proved_somewhere(f)))
+        run.failures = [f for f in run.failures if not proved_somewhere(f)]
+        if not all_res:
+            run.resource_errors = []
+        run.extra_smt_ms = extra_ms
     if pfut is not None:
         pres = pfut.result()
         pex.shutdown()
@@ -340,6 +388,8 @@ def main(argv):
     seed = int(os.environ.get('VERIF_SEED', '0') or 0)
     t0 = time.time()
     index = load_index()
+    if '--replay' in argv:
+        return replay(prop, argv[argv.index('--replay') + 1])
     if prop not in index['properties']:
         print('property %s is not claimed (see MANIFEST.json not_applicable)' % prop, file=sys.stderr)
         return 2
@@ -371,7 +421,82 @@ def main(argv):
                 undecided.append('kani did not complete: ' + extra['kani'].get('tail', '')[-600:])
         except AnchorLost as e:
             undecided.append('K1: anchor lost: %s' % e)
+    if tier == 'thorough':
+        extra['thorough'] = {
+            'reproofs': dict((r.name, r.variants) for r in runs),
+            'rule': 'every unit is re-verified from scratch (no cache) under three further solver configurations; an obligation counts as failed only if no configuration proves its function',
+            'unstable_obligations': sorted(set(x for r in runs for x in r.unstable)),
+            'extra_solver_time_ms': sum(r.extra_smt_ms for r in runs),
+        }
+        if os.environ.get('VERIF_NO_SEEDED') != '1':
+            extra['thorough']['seeded_changes'] = run_seeded(prop)
     return evidence.decide_and_report(prop, tier, seed, runs, undecided, load_known(), index, time.time() - t0, extra)
+
+
+def replay(prop, path):
+    """re-check the obligation named in a replay file against the current working tree"""
+    with open(path) as fh:
+        rec = json.load(fh)
+    oid = rec['failed_obligation']
+    print('replay: obligation %s (%s)' % (oid, rec.get('repo_location') or rec.get('repo_file') or ''))
+    if rec.get('counterexample') and rec['counterexample'].get('kani_concrete_playback'):
+        print('Kani concrete playback for the function text copied from /repo:')
+        print(rec['counterexample']['kani_concrete_playback'])
+    unit = oid.split('/', 1)[0]
+    if unit == 'K1':
+        import kani
+        k = kani.run(REPO, [prop], use_cache=False)
+        bad = [h for h in k['harnesses'] if h['id'] == oid and h['status'] == 'FAILURE']
+        still = bool(bad)
+        if bad and bad[0].get('witness'):
+            print(bad[0]['witness'].get('kani_concrete_playback', ''))
+    else:
+        run = run_unit(unit, 'quick', want_probe=False)
+        still = any(f['id'] == oid for f in run.failures)
+        for f in run.failures:
+            if f['id'] == oid:
+                print(f['rendered'])
+    if still:
+        print('VIOLATION property=%s replay=%s%s' % (prop, path, '' if unit == 'K1' else ' no-failing-input-found'))
+        return 1
+    print('replay: the obligation is discharged on the current tree')
+    return 0
+
+
+def run_seeded(prop):
+    """self-test of the check: every recorded property-breaking change for this property (seeded/<id>/patch.diff)
+    is applied to a scratch copy of the working tree and the quick check is run against that copy.
+    The outcome is recorded in the evidence; it never changes the verdict on /repo itself."""
+    out = []
+    sdir = os.path.join(ROOT, 'seeded')
+    if not os.path.isdir(sdir):
+        return out
+    for d in sorted(os.listdir(sdir)):
+        mp = os.path.join(sdir, d, 'meta.json')
+        pp = os.path.join(sdir, d, 'patch.diff')
+        if not (os.path.exists(mp) and os.path.exists(pp)):
+            continue
+        with open(mp) as fh:
+            meta = json.load(fh)
+        if prop not in meta.get('checks_expected_to_catch', [meta.get('property')]):
+            continue
+        tmp = tempfile.mkdtemp(prefix='verif-seeded-')
+        try:
+            shutil.copytree(os.path.join(REPO, 'src'), os.path.join(tmp, 'src'))
+            ap = subprocess.run(['patch', '-p1', '-s', '-i', pp], cwd=tmp, stdout=subprocess.PIPE, stderr=subprocess.STDOUT, universal_newlines=True)
+            if ap.returncode != 0:
+                out.append({'seeded': d, 'result': 'patch does not apply to the current tree', 'detail': ap.stdout[-300:]})
+                continue
+            env = dict(os.environ, VERIF_REPO=tmp, VERIF_OUT=os.path.join(tmp, 'out'), VERIF_TIER='quick')
+            cp = subprocess.run([sys.executable, os.path.abspath(__file__), prop, '--tier', 'quick'], env=env,
+                                stdout=subprocess.PIPE, stderr=subprocess.PIPE, universal_newlines=True)
+            viol = [l for l in cp.stdout.split('\n') if l.startswith('VIOLATION')]
+            failed = re.findall(r'failed obligation: (.*)', cp.stderr)
+            out.append({'seeded': d, 'exit': cp.returncode, 'result': 'caught' if cp.returncode == 1 and viol else ('undecided' if cp.returncode == 2 else 'MISSED'),
+                        'failed_obligations': failed[:6]})
+        finally:
+            shutil.rmtree(tmp, ignore_errors=True)
+    return out
 
 
 if __name__ == '__main__':
